@@ -116,6 +116,9 @@ def oracle(ctx, kind, p):
                             ctx.fail('containers-disagree(prefixed text)', mech=repr(pre),
                                      detail={'prefix': pre, 'text': t2[:200],
                                              'outcomes': {k: repr(v)[:120] for k, v in outs.items()}})
+                # the encoding argument is honoured on the way in and on the way out
+                enc = ('utf-8', 'utf-16', 'utf-8', 'utf-32-le', 'utf-8-sig')[(p['i'] + (indent or 0)) % 5]
+                ctx.count('encoding:' + enc)
                 for nl in ('LF', 'CRLF', 'CR', 'mixed'):
                     if nl == 'LF':
                         text = text_lf
@@ -127,20 +130,20 @@ def oracle(ctx, kind, p):
                         text = re.sub('\n', lambda m: rng.choice(['\n', '\r\n', '\r']), text_lf)
                     ctx.count('nl:' + nl)
                     path = os.path.join(tmpdir, 'in.txt')
-                    with open(path, 'w', encoding='utf-8', newline='') as fh:
+                    with open(path, 'w', encoding=enc, newline='') as fh:
                         fh.write(text)
                     lines = R.split_lines(text)
 
                     def via_handle():
-                        with open(path, encoding='utf-8') as fh:
+                        with open(path, encoding=enc) as fh:
                             return penman.load(fh, model=model)
                     import pathlib
 
                     def via_iter_handle():
-                        with open(path, encoding='utf-8') as fh:
+                        with open(path, encoding=enc) as fh:
                             return list(penman.iterdecode(fh, model=model))
                     containers = [
-                        ('Path', lambda: penman.load(pathlib.Path(path), model=model, encoding='utf-8')),
+                        ('Path', lambda: penman.load(pathlib.Path(path), model=model, encoding=enc)),
                         ('generator-of-lines', lambda: list(penman.iterdecode((ln for ln in lines), model=model))),
                         ('iterdecode(filehandle)', via_iter_handle),
                         ('codec.iterdecode', lambda: list(penman.PENMANCodec(model=model).iterdecode(text))),
@@ -148,11 +151,15 @@ def oracle(ctx, kind, p):
                         ('iterdecode(str)', lambda: list(penman.iterdecode(text, model=model))),
                         ('lines', lambda: list(penman.iterdecode(lines, model=model))),
                         ('lines+nl', lambda: list(penman.iterdecode([ln + '\n' for ln in lines], model=model))),
+                        ('lines+crlf', lambda: list(penman.iterdecode([ln + '\r\n' for ln in lines], model=model))),
+                        ('lines+cr', lambda: list(penman.iterdecode([ln + '\r' for ln in lines], model=model))),
+                        ('lines+own-terminator', lambda: list(penman.iterdecode(R.split_lines(text, keepends=True),
+                                                                                 model=model))),
                         ('StringIO(newline=None)', lambda: penman.load(io.StringIO(text, newline=None), model=model)),
-                        ('file', lambda: penman.load(path, model=model, encoding='utf-8')),
+                        ('file', lambda: penman.load(path, model=model, encoding=enc)),
                         ('filehandle', via_handle),
                     ]
-                    if '\r' not in text:
+                    if re.search(r'\r(?!\n)', text) is None:     # a plain StringIO does not end lines at a lone CR (O6)
                         containers.append(('StringIO', lambda: penman.load(io.StringIO(text), model=model)))
                     for cname, f in containers:
                         ok, res = ctx.call(f, clause=f'decode[{cname}]')
@@ -172,13 +179,13 @@ def oracle(ctx, kind, p):
                 import pathlib
                 target = pathlib.Path(outp) if p['i'] % 2 else outp
                 ok, _ = ctx.call(penman.dump, (g for g in gs) if p['i'] % 3 == 0 else gs, target, model=model,
-                                 indent=indent, encoding='utf-8', clause='dump(name)')
+                                 indent=indent, encoding=enc, clause='dump(name)')
                 if ok:
-                    with open(outp, encoding='utf-8', newline='') as fh:
+                    with open(outp, encoding=enc, newline='') as fh:
                         raw = fh.read()
                     if gs and raw != text_lf + '\n' or (not gs and raw != ''):
                         ctx.fail('dump(name)!=dumps', detail={'file': raw[:300], 'dumps': text_lf[:300]})
-                    ok, back = ctx.call(penman.load, outp, model=model, encoding='utf-8', clause='load(dump)')
+                    ok, back = ctx.call(penman.load, outp, model=model, encoding=enc, clause='load(dump)')
                     if ok and sig(back) != want:
                         ctx.fail('load(dump(gs))!=gs', detail={'file': raw[:400]})
                 buf = io.StringIO()
